@@ -41,7 +41,7 @@ type C14Params struct {
 	Runs    []C14Run  `json:"runs"`
 }
 
-var c14Versions = []string{"4.1.0", "4.2.0", "3.3.5", "10.20.30", "4.2.0-rc1", "4.2.0-RC1", "4.2.0-rc.1", "v4.3.0", "4.4.0+build5", "4.5", "5.0.0-dev", "4.0.1-alpha-2", "4.6.0-rc2+build.7", "4.1.0+20260131.5114f85", "0.9.0", "v0.0.3-rc1", "0.10"}
+var c14Versions = []string{"4.1.0", "4.2.0", "3.3.5", "10.20.30", "4.2.0-rc1", "4.2.0-RC1", "4.2.0-rc.1", "v4.3.0", "4.4.0+build5", "4.5", "5.0.0-dev", "4.0.1-alpha-2", "4.6.0-rc2+build.7", "4.1.0+20260131.5114f85", "0.9.0", "v0.0.3-rc1", "0.10", "v4.1.0-12-g1a2b3c4", "4.2.0-rc2-3-gdeadbeef"}
 
 func shortVersions(v string) []string {
 	all := strings.Join(regexp.MustCompile(`[0-9]+`).FindAllString(v, -1), "")
@@ -170,8 +170,9 @@ func genC14(t *rapid.T, tier string) (*World, any) {
 	p.Initial = C14Run{Version: pick(t, []string{"4.0.0", "3.3.2", "4.0.0-rc1"}, "v0"), Year: pick(t, []string{"2022", "2024"}, "y0")}
 	p.Root = pick(t, []string{"crs", "crs", "crs", ".crs-build", "core.rule.set"}, "rootname")
 	p.CRLF = chance(t, 10, "crlf")
-	paths := []string{p.Root + "/crs-setup.conf.example", p.Root + "/rules/REQUEST-901-INITIALIZATION.conf", p.Root + "/rules/REQUEST-942-APPLICATION-ATTACK-SQLI.conf", p.Root + "/plugins/empty-after.conf", p.Root + "/.devcontainer/dev.conf", p.Root + "/plugins/empty-before.example"}
-	n := drawInt(t, 1, 6, "nfiles")
+	paths := []string{p.Root + "/crs-setup.conf.example", p.Root + "/rules/REQUEST-901-INITIALIZATION.conf", p.Root + "/rules/REQUEST-942-APPLICATION-ATTACK-SQLI.conf", p.Root + "/plugins/empty-after.conf", p.Root + "/.devcontainer/dev.conf", p.Root + "/plugins/empty-before.example",
+		p.Root + "/crs-setup.conf", p.Root + "/rules/REQUEST-901-INITIALIZATION.conf.example"} // the working copy next to its example, the example next to its rules file
+	n := drawInt(t, 1, 8, "nfiles")
 	for i := 0; i < n; i++ {
 		f := C14File{Path: paths[i], Segs: drawConfFile(t, fmt.Sprintf("f%d", i))}
 		p.Files = append(p.Files, f)
